@@ -102,6 +102,20 @@ CHECKS["C02"] = {
              "semantics; shape contracts in sa/engine/mrspec.py; NumPy type stub as attribute oracle."),
 }
 
+CHECKS["C01"] = {
+    "engine": "sa",
+    "technique": "normal-form (value-numbering) structural rules on the SO(3)/SE(3) primitives + translation validation against the pinned reference",
+    "design_ref": "DESIGN.md section 4 C01",
+    "text": ("Decides for every input the clauses of the rigid-motion primitives whose truth is in the shape of the code: "
+             "hat/vee are mutually inverse (symbolic composition of the two tables - complete for that clause), SE(3)/se(3) "
+             "results end in 0 0 0 1 / 0 0 0 0 on every branch, Adjoint/ad/TransInv have the block layouts of the group "
+             "structure in [omega; v] order, the logarithm's cases are exhaustive and disjoint with index-consistent "
+             "half-turn branches, the exponentials divide by theta only off the near-zero branch, and all 19 primitives "
+             "have the same normal form as modern_robotics 1.1.1. The numerical identities log(exp(x)) = x, exp(log(T)) = T, "
+             "inv(T)T = I, Ad homomorphism to 5e-6 are NOT decided: they rest on the reference formulas (trusted base)."),
+    "note": "Trusted: modern_robotics 1.1.1 formulas; rewrite set N1..N16; IEEE arithmetic near the 0/pi branch points is not analysed.",
+}
+
 _PENDING = "rule module not yet built in this round (see DESIGN.md section 4 for the planned static rules)"
 for _i in range(1, 21):
     _p = "C%02d" % _i
